@@ -51,7 +51,8 @@ def validate_attributes(attributes, namespace, whitelist):
             )
 
 
-def convert_data_attributes(ns_attrs, attrs, namespaces, drop_ns=None) -> None:
+def convert_data_attributes(
+        ns_attrs, attrs, namespaces, drop_ns=None, default=None) -> None:
     d = 0
     for i, attr in list(enumerate(attrs)):
         name = attr['name']
@@ -64,6 +65,9 @@ def convert_data_attributes(ns_attrs, attrs, namespaces, drop_ns=None) -> None:
             if ns is None or (drop_ns is not None and ns not in drop_ns):
                 # An ordinary data attribute
                 continue
+            # The attribute is replaced by the statement it spells (the
+            # namespace attributes must stay aligned with ``attrs``).
+            ns_attrs.pop((default, attr['name']), None)
             ns_attrs[ns, name] = attr['value']
             attrs.pop(i - d)
             d += 1
@@ -180,7 +184,7 @@ class MacroProgram(ElementProgram):
         if self.enable_data_attributes:
             attrs = list(attrs)
             convert_data_attributes(
-                ns, attrs, start['ns_map'], self.DROP_NS
+                ns, attrs, start['ns_map'], self.DROP_NS, start['namespace']
             )
 
         for (prefix, attr), encoded in tuple(ns.items()):
